@@ -1081,3 +1081,55 @@ func init() {
 		},
 	})
 }
+
+func init() {
+	register(&Rule{
+		Name:  "SM-commit",
+		Doc:   "a component value that comes out of a parser together with an error (the host) is stored into the URL only on paths that tested that error and found it nil: validate, then commit",
+		Props: []string{"C05"},
+		Floor: 3,
+		Run: func(c *Ctx, s *core.Sink) {
+			m := BuildSM(c)
+			if smProblems(m, s) {
+				return
+			}
+			type agg struct {
+				ok  bool
+				n   int
+				pos string
+			}
+			res := map[string]*agg{}
+			for _, cx := range m.Contexts {
+				for _, p := range m.Paths[cx.Name] {
+					for _, e := range p.Effects {
+						if !strings.Contains(e.Detail, "[validated]") && !strings.Contains(e.Detail, "[unvalidated]") {
+							continue
+						}
+						k := fmt.Sprintf("commit/%s/%s@%s", p.State, e.Field, c.P.Pos(e.Pos))
+						a := res[k]
+						if a == nil {
+							a = &agg{ok: true, pos: c.P.Pos(e.Pos)}
+							res[k] = a
+						}
+						a.n++
+						if strings.Contains(e.Detail, "[unvalidated]") {
+							a.ok = false
+						}
+					}
+				}
+			}
+			var keys []string
+			for k := range res {
+				keys = append(keys, k)
+			}
+			sort.Strings(keys)
+			ord := map[string]int{}
+			for _, k := range keys {
+				a := res[k]
+				base := strings.SplitN(k, "@", 2)[0]
+				ord[base]++
+				s.Check(a.ok, fmt.Sprintf("%s#%d", base, ord[base]), a.pos, fmt.Sprintf("stored only after its error was found nil (%d paths)", a.n), "the value is stored into the URL before (or without) its parse error being tested: a rejected value is committed")
+			}
+		},
+	})
+}
